@@ -83,6 +83,14 @@ def run(tier, seed):
                                 facts.append((f'limit={k} = first {k}', ids(c.select(tgt, limit=k)) == ids(full[:k])))
                             for k in (0, -1, -7):
                                 facts.append((f'limit={k} = all', ids(c.select(tgt, limit=k)) == ids(full)))
+                            # the same limit rules through every entry point that takes a limit (iselect is lazy: its own code path)
+                            for k in (1, 3):
+                                facts.append((f'iselect limit={k} = first {k}', ids(list(c.iselect(tgt, limit=k))) == ids(full[:k])))
+                                facts.append((f'sv.iselect limit={k} = first {k}', ids(list(sv.iselect(s, tgt, limit=k, **kw))) == ids(full[:k])))
+                            for k in (0, -1, -3):
+                                facts.append((f'iselect limit={k} = all', ids(list(c.iselect(tgt, limit=k))) == ids(full)))
+                                facts.append((f'sv.iselect limit={k} = all', ids(list(sv.iselect(s, tgt, limit=k, **kw))) == ids(full)))
+                                facts.append((f'sv.select limit={k} = all', ids(sv.select(s, tgt, limit=k, **kw)) == ids(full)))
                             # module-level functions = compile(...).method
                             facts.append(('sv.select = compile().select', ids(sv.select(s, tgt, **kw)) == ids(full)))
                             facts.append(('sv.select limit', ids(sv.select(s, tgt, limit=2, **kw)) == ids(full[:2])))
